@@ -31,11 +31,16 @@ func (c15) Cases(tier string) int {
 
 func (c15) HangIsViolation() bool { return true }
 
+// CaseTimeout: a case is a few hundred parses and takes milliseconds; one that is silent for 30 s hangs.
+func (c15) CaseTimeout(tier string) time.Duration { return 30 * time.Second }
+
 func (c15) ChildTimeout(tier string) time.Duration {
 	if tier == "thorough" {
 		return 90 * time.Minute
 	}
-	return 10 * time.Minute
+	// a quick chunk takes well under a second; a child that is silent for two minutes hangs (the suspect case
+	// is then re-run alone under the same limit before it counts)
+	return 2 * time.Minute
 }
 
 func (c15) Thresholds(tier string) map[string]int64 {
